@@ -309,6 +309,9 @@ func runEAN8() {
 		sweepR("EAN-8 readers, row level, scale 1: ALL 10^8 eight-digit strings: read iff the check digit is the reference one", "ean8", 100000000, 100000, func(l *mc.Local, rd gozxing.Reader, i int) {
 			c := fcase{Kind: "ean8", Num: dig(i, 8), Reader: "ean8", Scale: 1, Path: "row"}
 			symbolCase(l, rd, &c)
+			if i%1000 == 0 {
+				l.DistinctU("nontrivial", uint64(i/1000)|4<<40) // one per block of 100 valid symbols
+			}
 		})
 	}
 	sweepR("EAN-8 readers, row level, scale 2: stratified 10^6 eight-digit strings", "ean8", 1000000, 20000, func(l *mc.Local, rd gozxing.Reader, i int) {
@@ -344,6 +347,9 @@ func runUPCE() {
 		sweepR("UPC-E reader, row level, scale 1: ALL 2*10^7 (number system, six digits, check) symbols: read iff the check digit is that of the reference EXPANSION", "upce", 20000000, 100000, func(l *mc.Local, rd gozxing.Reader, i int) {
 			c := fcase{Kind: "upce", Num: dig(i, 8), Reader: "upce", Scale: 1, Path: "row"}
 			symbolCase(l, rd, &c)
+			if i%100 == 0 {
+				l.DistinctU("nontrivial", uint64(i/100)|2<<40) // one per block of 10 valid symbols
+			}
 		})
 	}
 	fam := le2(6)
@@ -875,7 +881,7 @@ func replay() {
 
 func main() {
 	chk = mc.New("C10", "fault_enumeration")
-	chk.Rule = "symbols are drawn by the reference model for EVERY number / value sequence of the stated families, valid or not (fault = one substituted digit or symbol character, a wrong check digit, a wrong parity pattern), and read by the library; writers are compared module by module with the reference drawing; non-trivial = distinct VALID symbols that were read correctly (the faults are generated from them) and distinct zero-suppressible numbers"
+	chk.Rule = "symbols are drawn by the reference model for EVERY number / value sequence of the stated families, valid or not (fault = one substituted digit or symbol character, a wrong check digit, a wrong parity pattern), and read by the library; writers are compared module by module with the reference drawing; non-trivial = distinct VALID symbols that were read correctly (the faults are generated from them; in the exhaustive thorough sweeps one per block of 100 EAN-8 / 10 UPC-E valid symbols, to bound memory) and one in 16 of the distinct zero-suppressible numbers"
 	chk.Assume("verif/ref/oned is the trusted drawing and checksum model (its tables are cross-checked in its own init and tests); symbols are rendered exactly (no noise) with 12 light modules on each side")
 	chk.Assume("a single substitution can never produce another valid symbol: UPC/EAN weights 3 and 1 are units modulo 10; Code 128 weights 1..102 are units modulo the prime 103 and the only value pairs that differ by 103 involve a start code, which is invalid inside a symbol and needed at its start; Code 93 C and K weights 1..20 are units modulo 47; Code 39 weight 1 modulo 43. Should the reference nevertheless judge a substituted symbol valid it is counted and not judged")
 	chk.Assume("a substituted symbol must give an ERROR: returning the original text although a check character does not verify is also a violation ('readers never return a symbol whose check characters do not verify'), reported under .../bad-check-accepted; returning other text under .../different-text")
